@@ -410,14 +410,17 @@ inductive Op where
   | down (s : Nat)
   | llgr (s : Nat)
   | nh (a : Nat) (up : Bool)      -- next-hop tracking: the IPv4 address became (un)reachable
-  | reset (k : Option Nat)
+  | reset (k : Option Nat)        -- the neighbour's own export policy is replaced, soft reset OUT
+  | greset (k : Option Nat)       -- the global export policy is replaced, soft reset OUT
   | deliver (n : Nat)
   | flush
   deriving DecidableEq, Repr, Inhabited
 
 structure Case01 where
   shards : Nat
-  sess : Sess                      -- with the initial policy
+  sess : Sess                      -- with the export policy in force at establishment (`ppol0` else `gpol0`)
+  ppol0 : Option Policy := none    -- the neighbour's own export policy assignment
+  gpol0 : Option Policy := none    -- the global export policy assignment
   srcs : List Source
   pfxs : List (Net × Nat)          -- prefix, shard
   asets : List Attrs
@@ -427,6 +430,16 @@ structure Case01 where
   ops : List Op
   deriving Repr, Inhabited
 
+/-- a flush with nothing left in the channel: what the neighbour holds and what a brand-new session
+    would be sent at that moment -/
+structure Quiet where
+  nth : Nat            -- how many flushes came before
+  reuse : Nat
+  overtaken : Nat
+  mirror : Mirror
+  dump : Mirror
+  deriving DecidableEq, Repr, Inhabited
+
 structure World where
   rib : Rib
   llgrSrcs : List Nat := []     -- sources whose shared `llgr_stale` flag is set
@@ -435,6 +448,9 @@ structure World where
   st : SessState
   nextAttrId : Nat := 1
   flushes : List Mirror := []
+  ppol : Option Policy := none  -- `PeerState.export_policy`
+  gpol : Option Policy := none  -- `TableManager.export_policy`
+  quiet : List Quiet := []
   deriving Repr
 
 def netLt (a b : Net) : Bool := a.1 < b.1 || (a.1 = b.1 && a.2 < b.2)
@@ -493,6 +509,8 @@ def ribOp (c : Case01) (rib : Rib) (attrId : Nat) (llgr : List Nat := []) (nht :
       (rs.map (·.1), sortChanges (rs.flatMap (·.2)), attrId)
   | _ => (rib, [], attrId)
 
+def freshDump (sess : Sess) (rib : Rib) : Mirror := ((establish sess rib).flush).mirror
+
 def World.step (c : Case01) (w : World) (op : Op) : World :=
   match op with
   | .ann .. | .wd .. | .down .. | .llgr .. | .nh .. =>
@@ -510,26 +528,36 @@ def World.step (c : Case01) (w : World) (op : Op) : World :=
         | _ => w.llgrSrcs
       { w with rib := rib, queue := w.queue ++ cs.map Ev.change, nextAttrId := aid, llgrSrcs := marked, nht := nht }
   | .reset k =>
+      -- `state.export_policy.load_full().or_else(|| tables.export_policy.load_full())`
       let pol : Option Policy := match k with
         | none => none
         | some i => (c.pols[i]?).getD none
-      { w with st := { w.st with sess := { w.st.sess with policy := pol } }, queue := w.queue ++ [Ev.softReset] }
+      { w with st := { w.st with sess := { w.st.sess with policy := pol.or w.gpol } }, ppol := pol,
+               queue := w.queue ++ [Ev.softReset] }
+  | .greset k =>
+      let pol : Option Policy := match k with
+        | none => none
+        | some i => (c.pols[i]?).getD none
+      { w with st := { w.st with sess := { w.st.sess with policy := w.ppol.or pol } }, gpol := pol,
+               queue := w.queue ++ [Ev.softReset] }
   | .deliver n =>
       let (q, st) := deliverN w.rib w.llgrSrcs n w.queue w.st
       { w with queue := q, st := st }
   | .flush =>
       let st := w.st.flush
-      { w with st := st, flushes := w.flushes ++ [st.mirror] }
+      { w with st := st, flushes := w.flushes ++ [st.mirror],
+               quiet := if w.queue.isEmpty then
+                   w.quiet ++ [⟨w.flushes.length, st.reuse, st.overtaken, st.mirror, freshDump st.sess w.rib⟩]
+                 else w.quiet }
 
 structure Obs01 where
   reuse : Nat
   overtaken : Nat
   flushes : List Mirror
+  quiet : List Quiet
   final : Mirror
   dump : Mirror
   deriving DecidableEq, Repr, Inhabited
-
-def freshDump (sess : Sess) (rib : Rib) : Mirror := ((establish sess rib).flush).mirror
 
 def initRib (n : Nat) : Rib := (List.range n).map (fun i => { idx := i })
 
@@ -537,10 +565,10 @@ def run01 (c : Case01) : Obs01 :=
   let (rib0, aid0) := c.pre.foldl (fun (acc : Rib × Nat) op =>
       let (r, _, a) := ribOp c acc.1 acc.2 [] [] op
       (r, a)) (initRib c.shards, 1)
-  let w0 : World := { rib := rib0, st := establish c.sess rib0, nextAttrId := aid0 }
+  let w0 : World := { rib := rib0, st := establish c.sess rib0, nextAttrId := aid0, ppol := c.ppol0, gpol := c.gpol0 }
   let w1 := c.ops.foldl (World.step c) w0
   let w2 := World.step c w1 (.deliver w1.queue.length)
   let st := w2.st.flush
-  ⟨st.reuse, st.overtaken, w2.flushes, st.mirror, freshDump st.sess w2.rib⟩
+  ⟨st.reuse, st.overtaken, w2.flushes, w2.quiet, st.mirror, freshDump st.sess w2.rib⟩
 
 end Rbgp.Export
